@@ -88,6 +88,8 @@ func checkC08(p *Prog, r *Report) {
 	// a NaN compares false with every cap and bound: the partial operations of the evapotranspiration routine stay
 	// inside their domains (shared machinery with C06.R6)
 	domainRule(p, r, "C08.R7", "the evapotranspiration routine", []string{"hermes.Evatra"}, 60)
+	// extraterrestrial radiation and day length feed the ET methods
+	solarClamps(p, r, "C08.R12")
 }
 
 func c08Caps(p *Prog, r *Report, x *Exec) {
